@@ -365,6 +365,9 @@ def emit_flexpath(case, cell_h, fp):
         toks += [fl(e['width']), fl(e['offset']), e['tag'][0], e['tag'][1]]
     case.op('fpath', cell_h, fl(fp['p0'][0]), fl(fp['p0'][1]), len(fp['elements']), fl(fp['tol']), *toks)
     case.op('fpset', h, int(fp['simple']), int(fp['scale_width']))
+    if fp.get('raith'):
+        r_ = fp['raith']
+        case.op('fpraith', h, hx(r_['name']), fl(r_['pitch'][0]), fl(r_['pitch'][1]), fl(r_['pitch'][2]), r_['periods'], r_['grating'], r_['dots'], r_['dwell'])
     for i, e in enumerate(fp['elements']):
         case.op('fpel', h, i, e['join'], e['end'], fl(e['ext'][0]), fl(e['ext'][1]), e['bend'], fl(e['bend_radius']))
     for call in fp['calls']:
